@@ -178,6 +178,7 @@ func Load(repo string, overlay map[string][]byte) (*Prog, error) {
 	computeRenames(p)
 	computeFieldRenames(p)
 	computeDevirt(p)
+	computeNewPackages(p)
 	p.LoadSecs = time.Since(t0).Seconds()
 	return p, nil
 }
